@@ -150,7 +150,24 @@ func c04RecursionRoot(lines []string) string {
 		}
 	}
 	if best == "" {
-		return "?"
+		// the recursion is not in cog: name the most frequent function of whatever library it is in
+		all := map[string]int{}
+		for _, l := range lines {
+			if len(l) == 0 || l[0] == '\t' || l[0] == ' ' || strings.HasPrefix(l, "runtime.") || strings.HasPrefix(l, "goroutine ") || !strings.Contains(l, "(") {
+				continue
+			}
+			all[c04FrameName(l)]++
+		}
+		n := 0
+		for fn, c := range all {
+			if c > n || (c == n && fn < best) {
+				best, n = fn, c
+			}
+		}
+		if best == "" || n < 3 {
+			return "?"
+		}
+		return "recursion:lib:" + best
 	}
 	return "recursion:" + best
 }
@@ -237,7 +254,7 @@ func c04SetLimits() {
 	debug.SetMemoryLimit(3 << 30)
 	// address-space cap (the `ulimit -v` of the worker): runaway allocation fails instead of
 	// taking the machine down
-	lim := syscall.Rlimit{Cur: 12 << 30, Max: 12 << 30}
+	lim := syscall.Rlimit{Cur: 8 << 30, Max: 8 << 30}
 	_ = syscall.Setrlimit(syscall.RLIMIT_AS, &lim)
 }
 
